@@ -6,6 +6,7 @@ use std::sync::Mutex;
 use std::time::Duration;
 
 mod simfs;
+mod suite_cache;
 mod suite_codec;
 mod suite_corrupt;
 mod suite_crash;
@@ -49,6 +50,7 @@ fn main() {
         "block" => suite_table::run_block,
         "table" => suite_table::run_table,
         "tfile" => suite_table::run_tfile,
+        "cache" => suite_cache::run_cache,
         "vfn" => suite_version::run_vfn,
         "dbhist" => suite_db::run_dbhist,
         "crash" => suite_crash::run_crash,
